@@ -34,7 +34,7 @@ MANIFEST = {
             "accesses to granules touched by >= 2 threads with a write, all free choices at blocking points, T in {2,3}, "
             "several tiny inputs, and for cross-validation of that reduction every single preemption at EVERY instrumented access; output must equal the 1-thread output bitwise, no barrier deadlock; a seeded racy "
             "counter in the harness must be caught in the same run. (c) real libgomp with OMP_NUM_THREADS in "
-            "{1,2,3,5,8,16,40} x OMP_SCHEDULE {static,dynamic,guided} x OMP_DYNAMIC x 2 (thorough 5) repeats in fresh "
+            "{1,2,3,5,8,16,40} x OMP_SCHEDULE {static,dynamic,guided} x OMP_DYNAMIC x 2 (thorough 5) repeats, plus teams cut below the maximum by OMP_THREAD_LIMIT, in fresh "
             "processes: identical digests over all per-frame functions.",
     "note": "(b) explores at the granularity of compiler-instrumented accesses under sequential consistency, at -O1; races "
             "the optimiser removes at -O3 and weak-memory effects are outside it. The prange loops of the Cython modules "
@@ -410,8 +410,11 @@ for name in sorted(F):
 
 def free_job(args):
     nthreads, schedule, dynamic, rep, repo, ov = args
-    env = dict(os.environ, OMP_NUM_THREADS=str(nthreads), OMP_SCHEDULE=schedule, OMP_DYNAMIC=dynamic, OMP_WAIT_POLICY="passive",
+    dyn, _, lim = dynamic.partition(";limit=")
+    env = dict(os.environ, OMP_NUM_THREADS=str(nthreads), OMP_SCHEDULE=schedule, OMP_DYNAMIC=dyn, OMP_WAIT_POLICY="passive",
                PYTHONHASHSEED="0")
+    if lim:
+        env["OMP_THREAD_LIMIT"] = lim       # the team is SMALLER than omp_get_max_threads(): deterministic, unlike OMP_DYNAMIC
     code = _FREE_SCRIPT % dict(verif=os.path.dirname(os.path.dirname(os.path.abspath(__file__))), ov=ov, repo=repo)
     p = subprocess.run([sys.executable, "-c", code], env=env, stdout=subprocess.PIPE, stderr=subprocess.PIPE, text=True, timeout=600)
     if p.returncode != 0:
@@ -513,6 +516,7 @@ def run(ctx):
             for r in range(reps)]
     if ctx.quick:
         cfgs = [c for c in cfgs if c[1] == "static" or c[0] in (2, 5, 40)]
+    cfgs += [(n, s, "false;limit=%d" % k, 0, ctx.repo, ctx.overlay) for n, s, k in ((4, "static", 2), (16, "static", 3), (8, "dynamic", 1), (5, "guided", 4))]
     fouts = ctx.pmap(free_job, cfgs, procs=8)
     ref = None
     c_ok = 0
